@@ -17,8 +17,8 @@ SPEC = {
         {"name": "TestStepProfile", "quick": 24, "thorough": 240, "shards_quick": 2, "shards_thorough": 4, "timeout": 3000},
         # drawn startup schedules / rps schedules started in the past, 7-13 s per case: 16 cases per process concurrently; thorough = 160 per process
         {"name": "TestStartup", "quick": 16, "thorough": 160, "shards_quick": 2, "shards_thorough": 4, "timeout": 3000},
-        # dense profiles (thousands of tokens per second per instance) x a 2.1-2.8 s hiccup, 4-7 s per case: 10 cases per process concurrently; thorough = 80 per process
-        {"name": "TestDenseHiccup", "quick": 10, "thorough": 80, "shards_quick": 2, "shards_thorough": 4, "timeout": 3000},
+        # dense profiles (thousands of tokens per second per instance) x a 2.1-2.8 s hiccup, 4-7 s per case: 3 cases per process concurrently; thorough = 24 per process
+        {"name": "TestDenseHiccup", "quick": 3, "thorough": 24, "shards_quick": 4, "shards_thorough": 4, "timeout": 3000},
     ],
     "rule": ("generated profiles (once/const/line, optionally two chained; 1-12 tokens per part over 1-4 s), 1-4 instances, shared or "
              "per-instance, discard_overflow on/off, cyclic response-time histories drawn from {0, 50ms, 0.5s, 1.7s, 1.9s, 2.1s, 2.4s, 3s, "
@@ -78,7 +78,7 @@ SPEC = {
              "(one case in three: two) per gun of 2.1-2.8 s, at the shot number that corresponds to an instant 0.1-1.2 s into the profile, "
              "so that every instance comes back >= 2 s behind with up to 23000 tokens of its share still to come; the run must end within "
              "profile + 2 s + slowest response (+3 s slack), every token is fired or reported as discarded, per-token clauses as everywhere; "
-             "10 cases concurrently per process; non-trivial = every instance discarded and some instance fired again afterwards."),
+             "at most 48000 tokens per case, 3 cases concurrently per process; non-trivial = every instance discarded and some instance fired again afterwards."),
     "floors": {"TestTiming/late_1_2s": 0.1, "TestTiming/late_2_3s": 0.1, "TestTiming/late_ge_3s": 0.07,
                "TestTiming/discard_off": 0.066, "TestTiming/instances_gt_1": 0.3, "TestTiming/discards_seen": 0.2, "TestTiming/token_waited_for_right_after_a_discard": 0.08,
                "TestNoEarlyShotDense/shots_within_1ms_after_their_time": 0.3,
